@@ -32,7 +32,13 @@ struct Calc : nop::Interface<Calc> {
   NOP_METHOD(Choose, IntOrStr(const IntOrStr& v));
   NOP_METHOD(Div, nop::Result<DivErr, std::int32_t>(std::int32_t a, std::int32_t b));
   NOP_METHOD(Unbound, std::int32_t(std::int32_t a));
-  NOP_INTERFACE_API(Sum, Concat, Echo, Stats, Choose, Div, Unbound);
+  // 64-bit and mixed-width integral parameters (called with narrower / differently signed arguments), and a method
+  // without a return value (no reply; the library cannot dispatch a handler that returns void, so it stays unbound)
+  NOP_METHOD(Seek, std::int64_t(std::int64_t pos));
+  NOP_METHOD(Reserve, std::uint64_t(std::uint64_t n));
+  NOP_METHOD(Scale, std::int64_t(int a, std::int64_t b));
+  NOP_METHOD(Notify, void(const std::string& s, const std::vector<std::uint32_t>& v));
+  NOP_INTERFACE_API(Sum, Concat, Echo, Stats, Choose, Div, Unbound, Seek, Reserve, Scale, Notify);
 };
 
 struct Small : nop::Interface<Small> {
@@ -293,9 +299,44 @@ void RunCalls(const std::string& iface, const Json& calls, JsonOut& o) {
       Calc::Echo::Bind([L](const std::vector<std::uint8_t>& v) { std::vector<std::uint8_t> r(v.rbegin(), v.rend()); L->hlog.push_back({"Echo", JArgs(v), J(r)}); return r; }),
       Calc::Stats::Bind([L](const Point& p, nop::Optional<std::int32_t> opt) { Point r{p.x + (opt ? 1 : 0), p.s + "!"}; L->hlog.push_back({"Stats", JArgs(p, opt), J(r)}); return r; }),
       Calc::Choose::Bind([L](const IntOrStr& v) { IntOrStr r; if (v.is<std::int32_t>()) r = std::string("int"); else if (v.is<std::string>()) r = std::int32_t{7}; L->hlog.push_back({"Choose", JArgs(v), J(r)}); return r; }),
+      Calc::Seek::Bind([L](std::int64_t p) { std::int64_t r = static_cast<std::int64_t>(static_cast<std::uint64_t>(p) ^ 0x5555u); L->hlog.push_back({"Seek", JArgs(p), J(r)}); return r; }),
+      Calc::Reserve::Bind([L](std::uint64_t n) { std::uint64_t r = n / 2 + 1; L->hlog.push_back({"Reserve", JArgs(n), J(r)}); return r; }),
+      Calc::Scale::Bind([L](int a, std::int64_t b) { std::int64_t r = static_cast<std::int64_t>(static_cast<std::uint64_t>(static_cast<std::int64_t>(a)) * 3u + static_cast<std::uint64_t>(b)); L->hlog.push_back({"Scale", JArgs(a, b), J(r)}); return r; }),
       Calc::Div::Bind([L](std::int32_t a, std::int32_t b) { nop::Result<DivErr, std::int32_t> r; if (b == 0 || (a == std::numeric_limits<std::int32_t>::min() && b == -1)) r = DivErr::DivideByZero; else r = a / b; L->hlog.push_back({"Div", JArgs(a, b), J(r)}); return r; }));
   auto small = nop::BindInterface<SmallImpl*>(Small::Inc::Bind(&SmallImpl::Inc), Small::Name::Bind(&SmallImpl::Name),
                                                   Small::Fixed::Bind(&SmallImpl::Fixed));
+  // the dispatch table's own view: selector of every declared method (Method::Selector and the by-index lookup of
+  // the interface) and whether the table matches it (InterfaceBindings::Match)
+  o.key("sels");
+  o.begin_arr();
+  auto sel_row = [&o](const char* label, std::uint64_t sel, std::uint64_t by_index, bool match) {
+    o.begin_obj();
+    o.kv_str("m", label);
+    o.kv_word("sel", sel, 8);
+    o.kv_word("isel", by_index, 8);
+    o.kv_bool("match", match);
+    o.end_obj();
+  };
+  if (iface == "calc") {
+    sel_row("Sum", Calc::Sum::Selector, Calc::GetMethodSelector<0>(), calc.Match(Calc::Sum::Selector));
+    sel_row("Concat", Calc::Concat::Selector, Calc::GetMethodSelector<1>(), calc.Match(Calc::Concat::Selector));
+    sel_row("Echo", Calc::Echo::Selector, Calc::GetMethodSelector<2>(), calc.Match(Calc::Echo::Selector));
+    sel_row("Stats", Calc::Stats::Selector, Calc::GetMethodSelector<3>(), calc.Match(Calc::Stats::Selector));
+    sel_row("Choose", Calc::Choose::Selector, Calc::GetMethodSelector<4>(), calc.Match(Calc::Choose::Selector));
+    sel_row("Div", Calc::Div::Selector, Calc::GetMethodSelector<5>(), calc.Match(Calc::Div::Selector));
+    sel_row("Unbound", Calc::Unbound::Selector, Calc::GetMethodSelector<6>(), calc.Match(Calc::Unbound::Selector));
+    sel_row("Seek", Calc::Seek::Selector, Calc::GetMethodSelector<7>(), calc.Match(Calc::Seek::Selector));
+    sel_row("Reserve", Calc::Reserve::Selector, Calc::GetMethodSelector<8>(), calc.Match(Calc::Reserve::Selector));
+    sel_row("Scale", Calc::Scale::Selector, Calc::GetMethodSelector<9>(), calc.Match(Calc::Scale::Selector));
+    sel_row("Notify", Calc::Notify::Selector, Calc::GetMethodSelector<10>(), calc.Match(Calc::Notify::Selector));
+  } else {
+    sel_row("Inc", Small::Inc::Selector, Small::GetMethodSelector<0>(), small.Match(Small::Inc::Selector));
+    sel_row("Name", Small::Name::Selector, Small::GetMethodSelector<1>(), small.Match(Small::Name::Selector));
+    sel_row("Fixed", Small::Fixed::Selector, Small::GetMethodSelector<2>(), small.Match(Small::Fixed::Selector));
+    sel_row("Other", Small::Other::Selector, Small::GetMethodSelector<3>(), small.Match(Small::Other::Selector));
+  }
+  o.end_arr();
+  o.kv_str("iname", iface == "calc" ? Calc::GetInterfaceName() : Small::GetInterfaceName());
   o.key("calls");
   o.begin_arr();
   for (auto& call : calls.a) {
@@ -327,6 +368,20 @@ void RunCalls(const std::string& iface, const Json& calls, JsonOut& o) {
       else if (m == "Choose") CallTyped<Calc::Choose, IntOrStr, IntOrStr>(c, a, o);
       else if (m == "Div") CallTyped<Calc::Div, nop::Result<DivErr, std::int32_t>, std::int32_t, std::int32_t>(c, a, o);
       else if (m == "Unbound") CallTyped<Calc::Unbound, std::int32_t, std::int32_t>(c, a, o);
+      else if (m == "Seek") CallTyped<Calc::Seek, std::int64_t, std::int64_t>(c, a, o);
+      else if (m == "Reserve") CallTyped<Calc::Reserve, std::uint64_t, std::uint64_t>(c, a, o);
+      else if (m == "Scale") CallTyped<Calc::Scale, std::int64_t, int, std::int64_t>(c, a, o);
+      else if (m == "Notify") CallTyped<Calc::Notify, void, std::string, std::vector<std::uint32_t>>(c, a, o);
+      // conforming substitutions: integral arguments narrower than / signed differently from the declared parameter
+      else if (m == "SumU16U8") CallTyped<Calc::Sum, std::int32_t, std::uint16_t, std::uint8_t>(c, a, o);
+      else if (m == "SumI8I16") CallTyped<Calc::Sum, std::int32_t, std::int8_t, std::int16_t>(c, a, o);
+      else if (m == "SeekU32") CallTyped<Calc::Seek, std::int64_t, std::uint32_t>(c, a, o);
+      else if (m == "SeekU8") CallTyped<Calc::Seek, std::int64_t, std::uint8_t>(c, a, o);
+      else if (m == "SeekI16") CallTyped<Calc::Seek, std::int64_t, std::int16_t>(c, a, o);
+      else if (m == "ReserveU16") CallTyped<Calc::Reserve, std::uint64_t, std::uint16_t>(c, a, o);
+      else if (m == "ReserveI32") CallTyped<Calc::Reserve, std::uint64_t, std::int32_t>(c, a, o);
+      else if (m == "ScaleU8U32") CallTyped<Calc::Scale, std::int64_t, std::uint8_t, std::uint32_t>(c, a, o);
+      else if (m == "ScaleI16I8") CallTyped<Calc::Scale, std::int64_t, std::int16_t, std::int8_t>(c, a, o);
       else o.kv_bool("badmethod", true);
     } else {
       if (m == "Inc") CallTyped<Small::Inc, std::uint8_t, std::uint8_t>(c, a, o);
